@@ -1,5 +1,5 @@
 import StepupModel.Props.C10
-import StepupModel.Lemmas.MetaAfter
+import StepupModel.Lemmas.MetaAfterW
 /-!
 # C11  Exactly the needed steps are executed
 
@@ -132,11 +132,11 @@ open StepupModel.K.MetaAfter in
 `pop_next_job` dispatches is, or transitively feeds, an attached step whose own need (its declared
 need, or TARGET because it produces a requested target) exceeds the threshold of the build. -/
 theorem dispatched_step_has_a_reason (s s' : KState) (cfg : KConfig) (k : Key) (d : Dispatch)
-    (hk : KeysUnique s) (hac : Acyclic s) (hc : CacheInvAfter s cfg)
+    (hk : KeysUnique s) (hac : Acyclic s) (hc : CacheInvAfterW s cfg)
     (h : s.popNext cfg (some k) = .ok (s', d)) :
     ∃ s1 n p, s.updateMeta cfg = .ok s1 ∧ AfterConsistent s1 cfg ∧ n ∈ s1.nodes ∧ n.key = k ∧
       Feeds s1 n p ∧ cfg.threshold.rank < (ownNeed s1 cfg p).rank ∧
       (ownNeed s1 cfg p = p.need ∨ (ownNeed s1 cfg p = .target ∧ TargetHit s1 cfg p)) :=
-  popNext_job_has_reason s s' cfg k d hk hac hc h
+  popNext_job_has_reason_weak s s' cfg k d hk hac hc h
 
 end StepupModel.Props.C11
